@@ -190,8 +190,8 @@ async def run_target(ctx, rng, s, b, target, v):
         st.inc("evaluations")
         st.inc("spelling:" + label)
         ctx.log(label, doc.text, variables, "->", X.jdump(resp)[:600])
-        c = c06.classify(resp)
-        if c:
+        c = X.refused(resp, w_eng)
+        if c and ref.data is not None:
             ctx.violation("valid-spelling-refused", "%s: %s" % (label, c), case)
             continue
         d = X.first_diff(resp.get("data"), ref.data)
@@ -258,7 +258,8 @@ async def run_illtyped(ctx, rng, s, b, target):
         return
     st.inc("evaluations")
     st.inc("ill-typed-literals")
-    if resp.get("data") is None and resp.get("errors") and not w_eng.calls and c06.classify(resp):
+    if X.refused(resp, w_eng):
+        # the whole request was answered with data null and nothing ran: a refusal (whatever its wording)
         st.inc("ill-typed:validation-refusal")
         return
     st.inc("ill-typed:field-failure")
@@ -354,8 +355,8 @@ async def run_nested_null_into_nonnull(ctx, rng, s, b, target):
         return
     st.inc("evaluations")
     st.inc("nested-null-variable-into-nonnull")
-    if c06.classify(resp):
-        ctx.violation("valid-spelling-refused", "nested null variable: %s" % (c06.classify(resp),), case)
+    if X.refused(resp, w_eng) and ref.data is not None:
+        ctx.violation("valid-spelling-refused", "nested null variable: %s" % (X.refused(resp, w_eng),), case)
         return
     if any(c_[0] == "%s.%s" % (s.query, f.name) for c_ in w_eng.calls):
         ctx.violation("null-delivered-for-nonnull-nested-position", "delivered=%s" % [c_[2] for c_ in w_eng.calls][:2], case)
